@@ -865,6 +865,8 @@ fn build_ge(lhs: &AstNode, rhs: &AstNode) -> Result<Evaluator> {
         Value::Date(rh) => Value::Boolean(lh >= rh),
         _ => value_null!("eval_less_or_equal_date"),
       },
+      // times, dates and times and durations are ordered like in unary tests and ranges
+      Value::Time(_) | Value::DateTime(_) | Value::YearsAndMonthsDuration(_) | Value::DaysAndTimeDuration(_) => eval_in_unary_greater_or_equal(&lhv, &rhv),
       _ => value_null!("eval_less_or_equal"),
     }
   }))
@@ -890,6 +892,8 @@ fn build_gt(lhs: &AstNode, rhs: &AstNode) -> Result<Evaluator> {
         Value::Date(rh) => Value::Boolean(lh > rh),
         _ => value_null!("eval_greater_then_date"),
       },
+      // times, dates and times and durations are ordered like in unary tests and ranges
+      Value::Time(_) | Value::DateTime(_) | Value::YearsAndMonthsDuration(_) | Value::DaysAndTimeDuration(_) => eval_in_unary_greater(&lhv, &rhv),
       _ => value_null!("eval_greater_then"),
     }
   }))
@@ -1071,6 +1075,8 @@ fn build_le(lhs: &AstNode, rhs: &AstNode) -> Result<Evaluator> {
         Value::Date(rh) => Value::Boolean(lh <= rh),
         _ => value_null!("eval_less_or_equal_date"),
       },
+      // times, dates and times and durations are ordered like in unary tests and ranges
+      Value::Time(_) | Value::DateTime(_) | Value::YearsAndMonthsDuration(_) | Value::DaysAndTimeDuration(_) => eval_in_unary_less_or_equal(&lhv, &rhv),
       _ => value_null!("eval_less_or_equal"),
     }
   }))
@@ -1096,6 +1102,8 @@ fn build_lt(lhs: &AstNode, rhs: &AstNode) -> Result<Evaluator> {
         Value::Date(rh) => Value::Boolean(lh < rh),
         _ => value_null!("eval_less_then_date"),
       },
+      // times, dates and times and durations are ordered like in unary tests and ranges
+      Value::Time(_) | Value::DateTime(_) | Value::YearsAndMonthsDuration(_) | Value::DaysAndTimeDuration(_) => eval_in_unary_less(&lhv, &rhv),
       _ => value_null!("eval_less_then"),
     }
   }))
